@@ -21,6 +21,7 @@ try:
     fname = m.group(2).rstrip(';')
     m2 = re.search(r"-run '?([^' ]+)'? (\S+)", first)
     runpat, pkg = m2.group(1), m2.group(2)
+    race = '-race ' if '-race' in first else ''
     rc, out = run(f'git apply {src}/patch.diff', wt)
     result['applies'] = rc == 0
     if rc != 0:
@@ -29,13 +30,13 @@ try:
     rc, out = run('go build ./... && go test -vet=off -count=1 ./...', wt)
     result['suite_passes_with_change'] = rc == 0
     shutil.copy(os.path.join(src, demo), os.path.join(wt, d, fname))
-    rc, out = run(f"go test -vet=off -count=1 -run '{runpat}' {pkg}", wt)
+    rc, out = run(f"go test {race}-vet=off -count=1 -run '{runpat}' {pkg}", wt)
     result['demo_fails_with_change'] = rc != 0
     result['demo_output_with_change'] = out[-600:]
     run('git checkout -- . ', wt)
-    rc, out = run(f"go test -vet=off -count=1 -run '{runpat}' {pkg}", wt)
+    rc, out = run(f"go test {race}-vet=off -count=1 -run '{runpat}' {pkg}", wt)
     result['demo_passes_without_change'] = rc == 0
-    result['demo_cmd'] = f"cp demo_test.go <repo>/{os.path.join(d, fname)} && cd <repo> && go test -vet=off -count=1 -run '{runpat}' {pkg}"
+    result['demo_cmd'] = f"cp demo_test.go <repo>/{os.path.join(d, fname)} && cd <repo> && go test {race}-vet=off -count=1 -run '{runpat}' {pkg}"
 finally:
     run(f'git -C /repo worktree remove --force {wt}', '/')
     shutil.rmtree(wt, ignore_errors=True)
